@@ -46,6 +46,26 @@ Section Hist.
     rewrite schema_history, sref_app. cbn [sref]. eexists _, _. split; reflexivity.
   Qed.
 
+  (* identification under a schema namespace is the identification of the text behind the prefix: a
+     namespaced configuration (also several libraries merged under one prefix) answers like the un-prefixed
+     one, with the prefix put in front of the forms *)
+  Lemma find_tag_entry_prefix T ns clean :
+    find_tag_entry_ foldc fx T (ns ++ clean) ns = find_tag_entry_ foldc fx T clean [].
+  Proof. unfold find_tag_entry_. rewrite skipn_app_exact. reflexivity. Qed.
+
+  Lemma namespace_transparent T sns t :
+    get_schema_namespace (sns ++ t) = sns -> get_schema_namespace t = [] ->
+    let h := hedtag_init foldc fx T sns (sns ++ t) in
+    let h0 := hedtag_init foldc fx T [] t in
+    ht_entry h = ht_entry h0 /\ ht_ext h = ht_ext h0 /\
+    short_tag h = sns ++ short_tag h0 /\ long_tag h = sns ++ long_tag h0.
+  Proof.
+    intros N1 N0. cbv zeta. unfold hedtag_init, find_tag_entry. rewrite N1, N0, !str_eqb_refl.
+    rewrite find_tag_entry_prefix.
+    destruct (find_tag_entry_ foldc fx T t []) as [e ext|err]; unfold short_tag, long_tag;
+      cbn [ht_entry ht_ext ht_ns ht_text app]; repeat split; reflexivity.
+  Qed.
+
   (* reading forms and copying never matter *)
   Lemma tag_reads_invisible T sns ops : forall h,
     trun foldc T sns h ops = trun foldc T sns h (filter mutating ops).
